@@ -15,6 +15,7 @@ import (
 	"fmt"
 	"sort"
 	"testing"
+	"time"
 
 	"github.com/mycoria/mycoria/frame"
 	"github.com/mycoria/mycoria/m"
@@ -49,6 +50,46 @@ func run(e *core.Env) {
 	for i := 0; i < 2; i++ {
 		id := ident.Get(ident.Routable, perm[i])
 		S[i] = linkpair.NewStack(e, fmt.Sprintf("r%d", i), id, node.BaseStore(id), false)
+	}
+	// In a third of the runs the two routers had a link before (a few frames each way, then
+	// both ends closed it): what the adversary recorded there is injected into the new link.
+	var earlier [][]byte
+	if tp.Chance(1, 3) {
+		cn.KeepLog = true
+		c0 := tp.Intn(2) // who dialled then
+		a0 := linkpair.Dial(cn, S[c0], S[1-c0])
+		cn.DrainFIFO(tp, 100)
+		l0, l1 := S[0].Node.Peering.GetLink(S[1].Node.IP), S[1].Node.Peering.GetLink(S[0].Node.IP)
+		if l0 != nil && l1 != nil {
+			hs := len(cn.Written)
+			for k, n := 0, 2+tp.Intn(5); k < n; k++ {
+				from, l := S[0], l0
+				if tp.Chance(1, 2) {
+					from, l = S[1], l1
+				}
+				f, err := from.Node.Inst.Builder.NewFrameV1(from.Node.IP, l.Peer(), frame.RouterPing, nil, append([]byte("EARLIER-LINK:"), tp.Bytes(20+tp.Intn(300))...), nil)
+				if err == nil {
+					_ = l.Send(f)
+				}
+				simnet.Wait()
+				cn.DrainFIFO(tp, 50)
+			}
+			for _, r := range cn.Written[hs:] {
+				if r.Conn == a0.Pair && !r.EOF {
+					earlier = append(earlier, append([]byte(nil), r.Data...))
+				}
+			}
+			l0.Close(nil)
+			l1.Close(nil)
+			cn.DrainFIFO(tp, 100)
+			S[0].Drain()
+			S[1].Drain()
+			time.Sleep(time.Second + time.Duration(tp.Intn(2000))*time.Millisecond)
+			simnet.Wait()
+			e.Probe("routers_had_an_earlier_link")
+		}
+		cn.KeepLog = false
+		cn.Written = nil
 	}
 	att := linkpair.Dial(cn, S[0], S[1])
 	cn.DrainFIFO(tp, 100)
@@ -96,6 +137,7 @@ func run(e *core.Env) {
 		S[1].Drain()
 	}
 
+	foreign = append(foreign, earlier...)
 	cn.KeepLog = true // from here on every record written is kept for the confidentiality check
 	sent := map[string]*sentFrame{}
 	tokSeq := 0
@@ -280,7 +322,40 @@ func run(e *core.Env) {
 			if r.Dir == 1 {
 				dst = att.Pair.A
 			}
-			kind := tp.Intn(13)
+			kind := tp.Intn(14)
+			if kind == 13 {
+				// Not a fault at all for a byte stream: the oldest 2..4 records of one direction
+				// reach the reader back to back, as one chunk (TCP coalesces segments, a busy
+				// reader finds several records waiting).
+				var run []*simnet.Record
+				for _, q := range recs {
+					if q.Dir == r.Dir && !q.EOF && len(run) < 2+tp.Intn(3) {
+						run = append(run, q)
+					}
+				}
+				if len(run) >= 2 {
+					var chunk []byte
+					for _, q := range run {
+						chunk = append(chunk, q.Data...)
+						cn.Remove(q)
+						remember(q)
+						if cn.OnDeliver != nil {
+							cn.OnDeliver(q)
+						}
+					}
+					dstEnd := att.Pair.B
+					if r.Dir == 1 {
+						dstEnd = att.Pair.A
+					}
+					cn.DeliverBytes(dstEnd, chunk, false)
+					e.Fault("coalesced_records")
+					faults--
+				} else {
+					faults--
+				}
+				collect()
+				continue
+			}
 			e.Logf("adversary kind=%d on record dir=%d seq=%d tag=%.8s len=%d", kind, r.Dir, r.Seq, r.Tag, len(r.Data))
 			if nearWrap && kind == 4 {
 				kind = 3
